@@ -81,8 +81,9 @@ static void dg_f(struct dg *d, double x) { uint64_t u; memcpy(&u, &x, sizeof u);
 #define PF_FLIP 2
 #define PF_SIM 4
 #define PF_LOG 8
-enum { SH_NONE, SH_LONGFIRST, SH_LONGLAST, SH_ALT, SH_RANDOM, SH_SLEEP, SH_COUNT };
-static const char *shape_name[] = { "none", "long-first", "long-last", "alternating", "random", "sleeping" };
+enum { SH_NONE, SH_LONGFIRST, SH_LONGLAST, SH_ALT, SH_RANDOM, SH_SLEEP, SH_RENDEZVOUS, SH_COUNT };
+static const char *shape_name[] = { "none", "long-first", "long-last", "alternating", "random", "sleeping", "rendezvous" };
+static atomic_int rdv_arrived;
 
 static struct {
     int g; uint64_t gseed; long n; size_t sz; int profile; bool seeded; bool sameparams; long cores;
@@ -360,6 +361,17 @@ static void trial(void *p)
     memcpy(q + (G.sz >= 16u ? 8u : 0u), &D, sizeof D);
     memcpy(side[slot], dsec, sizeof dsec);
     gate_before_end(slot);
+    if (!R.is_ref && R.shape == SH_RENDEZVOUS && !R.planned) {
+        /* the trials just before the last one end together: all workers come back for work at the same
+         * moment with a single trial left */
+        const long lo = (G.n - 1 - G.cores > 0) ? G.n - 1 - G.cores : 0;
+        const long k = (G.n - 1) - lo;
+        if (slot >= lo && slot < G.n - 1 && k > 1) {
+            atomic_fetch_add(&rdv_arrived, 1);
+            const double t0 = now_s();
+            while (atomic_load(&rdv_arrived) < k && now_s() - t0 < 0.05) { /* spin */ }
+        }
+    }
     if (!R.is_ref) { log_ev(EV_END, wid, slot, 0, 1); atomic_fetch_add(&ended_cnt, 1); }
 }
 
@@ -483,7 +495,7 @@ static void run_group(uint64_t seed, int g, int runs, const char *outpath, const
         if (R.planned) { plan_ix = (r / 2) % nplans; for (long i = 0; i < G.n; i++) endpos[plans[plan_ix][i]] = i; R.shape = SH_NONE; }
         fill_array(arr); base = arr;
         memset(side, 0, sizeof(*side) * (size_t)G.n);
-        atomic_store(&nev, 0); atomic_store(&nwid, 0); atomic_store(&ended_cnt, 0); atomic_store(&plan_abandoned, 0);
+        atomic_store(&nev, 0); atomic_store(&nwid, 0); atomic_store(&ended_cnt, 0); atomic_store(&plan_abandoned, 0); atomic_store(&rdv_arrived, 0);
         set_cpus(R.cpus);
         fprintf(out, "{\"e\":\"Run\",\"run\":%d,\"cores\":%ld,\"shape\":\"%s\",\"cpus\":%d,\"plan\":%d}\n", r, G.cores, shape_name[R.shape], R.cpus, plan_ix);
         cimba_run_experiment(arr, (uint64_t)G.n, G.sz, trial);
